@@ -78,6 +78,12 @@ fn member(r: &mut Rng, now: i128, dir: i128) -> Option<Value> {
             let future = if r.chance(3, 4) { dir < 0 } else { dir > 0 };
             Some(json!(if future { *r.pick(&FAR_FUTURE) } else { *r.pick(&FAR_PAST) }))
         }
+        7 if dir < 0 => {
+            // long past (before the Unix epoch): still simply "in the past"
+            let t = civil::ns_from_ymd_hms(1800 + r.below(170) as i64, 1 + r.below(12) as u32, 1 + r.below(28) as u32, r.below(24) as u32, r.below(60) as u32, r.below(60) as u32, if r.chance(1, 2) { 0 } else { 500_000_000 });
+            let st = canonical_style(r, t);
+            Some(json!(civil::render(t, st)))
+        }
         6 => {
             // an instant that reads as a ROUND local time in its own offset (midnight, top of the hour or of
             // the minute), mostly on the side where the member must make the parse fail
